@@ -38,6 +38,8 @@ func init() {
 			{ID: "C13-R14", Title: "mounts hand their source a rooted path", Floor: 1, Run: mountsHandTheirSourceARootedPath},
 			{ID: "C13-R15", Title: "mount points are normalised when they are registered", Floor: 1, Run: mountPointsAreNormalisedWhenTheyAreRegistered},
 			{ID: "C13-R16", Title: "mount-relative paths go to the mount only", Floor: 5, Run: mountRelativePathsGoToTheMountOnly},
+			{ID: "C13-R17", Title: "the base of a rooted filesystem is made absolute", Floor: 1, Run: theBaseDoesNotMoveWithTheWorkingDirectory},
+			{ID: "C13-R18", Title: "a path under no mount point is refused there and then", Floor: 10, Run: pathsUnderNoMountAreRefused},
 		},
 	})
 }
@@ -123,8 +125,27 @@ func c13r1(c *core.Ctx) {
 					if !core.IsStringType(pv.Type()) || !goPathParamNames[pv.Name()] {
 						continue
 					}
-					nsites++
 					arg := call.Common().Args[i]
+					// the base itself is the host's, not a script's: making it
+					// absolute (C13-R17 asks for that) reads the working
+					// directory and touches nothing under a path of a script
+					if callee.Pkg.Pkg.Path() == "path/filepath" && callee.Name() == "Abs" && sf.Signature.Recv() == nil && sf.Parent() == nil {
+						bIdx := fieldIdxByName(fsT, "base")
+						onlyBase := bIdx >= 0
+						for _, o := range core.Origins(arg) {
+							cl, isCall := o.(*ssa.Call)
+							if isCall && cl.Call.StaticCallee() != nil && cl.Call.StaticCallee().Pkg != nil && cl.Call.StaticCallee().Pkg.Pkg.Path() == "path/filepath" && cl.Call.StaticCallee().Name() == "Clean" && len(cl.Call.Args) == 1 {
+								o = cl.Call.Args[0]
+							}
+							if _, ok := loadOfField(o, fsT, bIdx); !ok {
+								onlyBase = false
+							}
+						}
+						if onlyBase {
+							continue
+						}
+					}
+					nsites++
 					cname := callee.Pkg.Pkg.Name() + "." + callee.Name()
 					perCallee[cname+"|"+pv.Name()]++
 					key := fnKey(sf) + "|" + cname + "|" + pv.Name()
